@@ -87,6 +87,13 @@ class ReadBuf:
     def read_line(self) -> str:
         return self._buf.readline().rstrip().decode('utf-8', 'replace')
 
+    def has_line(self) -> bool:
+        '''Returns True if the unread data contains a complete (newline-terminated) line.'''
+        pos = self._buf.tell()
+        data = self._buf.read()
+        self._buf.seek(pos, 0)
+        return b'\n' in data
+
     def reset(self) -> None:
         self._buf = io.BytesIO()
         self._len = 0
